@@ -62,7 +62,107 @@ mod sched {
     pub fn trace_take() -> Vec<&'static str> {
         std::mem::take(&mut *TRACE.lock().unwrap())
     }
+
+    /// `Condvar` for the scheduler-controlled build.  `wait`, `wait_while` and the notifications
+    /// are shuttle's.  shuttle's timed waits never time out; here a timed wait is woken either by
+    /// a notification or by a "timer" (a scheduler-controlled thread that stands for the passage of
+    /// time), at a moment the scheduler chooses, and then reports a time-out if its condition
+    /// still holds.  delta itself has no timed wait; this exists so that a change which
+    /// introduces one is explored with both outcomes instead of with "never times out".
+    pub struct SimCondvar {
+        inner: shuttle::sync::Arc<shuttle::sync::Condvar>,
+    }
+
+    pub struct SimWaitTimeoutResult(bool);
+
+    impl SimWaitTimeoutResult {
+        pub fn timed_out(&self) -> bool {
+            self.0
+        }
+    }
+
+    type Guard<'a, T> = shuttle::sync::MutexGuard<'a, T>;
+    type TimedResult<'a, T> = std::sync::LockResult<(Guard<'a, T>, SimWaitTimeoutResult)>;
+
+    impl SimCondvar {
+        #[allow(clippy::new_without_default)]
+        pub fn new() -> Self {
+            SimCondvar {
+                inner: shuttle::sync::Arc::new(shuttle::sync::Condvar::new()),
+            }
+        }
+        pub fn wait<'a, T>(&self, guard: Guard<'a, T>) -> std::sync::LockResult<Guard<'a, T>> {
+            self.inner.wait(guard)
+        }
+        pub fn wait_while<'a, T, F>(
+            &self,
+            guard: Guard<'a, T>,
+            condition: F,
+        ) -> std::sync::LockResult<Guard<'a, T>>
+        where
+            F: FnMut(&mut T) -> bool,
+        {
+            self.inner.wait_while(guard, condition)
+        }
+        pub fn notify_all(&self) {
+            self.inner.notify_all()
+        }
+        pub fn notify_one(&self) {
+            self.inner.notify_one()
+        }
+        pub fn wait_timeout<'a, T>(
+            &self,
+            guard: Guard<'a, T>,
+            _dur: std::time::Duration,
+        ) -> TimedResult<'a, T> {
+            let mut first = true;
+            self.wait_timeout_while(guard, _dur, move |_| std::mem::replace(&mut first, false))
+        }
+        pub fn wait_timeout_while<'a, T, F>(
+            &self,
+            mut guard: Guard<'a, T>,
+            _dur: std::time::Duration,
+            mut condition: F,
+        ) -> TimedResult<'a, T>
+        where
+            F: FnMut(&mut T) -> bool,
+        {
+            if !condition(&mut *guard) {
+                return Ok((guard, SimWaitTimeoutResult(false)));
+            }
+            trace_push("timed-wait");
+            // the timer: notifies until the waiter has woken up (a notification sent before
+            // the waiter sleeps would be lost)
+            let woke = shuttle::sync::Arc::new(shuttle::sync::atomic::AtomicBool::new(false));
+            let (woke2, cv2) = (woke.clone(), self.inner.clone());
+            shuttle::thread::spawn(move || {
+                while !woke2.load(std::sync::atomic::Ordering::SeqCst) {
+                    cv2.notify_all();
+                    shuttle::thread::yield_now();
+                }
+            });
+            guard = match self.inner.wait(guard) {
+                Ok(g) => g,
+                Err(e) => {
+                    woke.store(true, std::sync::atomic::Ordering::SeqCst);
+                    return Err(std::sync::PoisonError::new((
+                        e.into_inner(),
+                        SimWaitTimeoutResult(false),
+                    )));
+                }
+            };
+            woke.store(true, std::sync::atomic::Ordering::SeqCst);
+            let still = condition(&mut *guard);
+            if still {
+                trace_push("timed-out");
+            }
+            Ok((guard, SimWaitTimeoutResult(still)))
+        }
+    }
 }
 
 #[cfg(dandavison_delta_verif_shuttle)]
-pub use sched::{set_sim_guess, sim_guess, trace_contains, trace_push, trace_take};
+pub use sched::{
+    set_sim_guess, sim_guess, trace_contains, trace_push, trace_take, SimCondvar,
+    SimWaitTimeoutResult,
+};
